@@ -1115,6 +1115,15 @@ class Engine:
                 seen += 1
             if isinstance(v, (Bytes, SeqV)):
                 return Int(v.len, 64, False)
+            if isinstance(v, Opaque) and re.match(r'^&?(?:mut )?(?:(?:std::vec::)?Vec<.*>|\[[^;]*\])$', (v.ty or '').strip()):
+                # a sequence produced by a havocked callee: some length (the value it came from was already a guess and the path
+                # carries that taint) -- remembered so that the same sequence has the same length next time
+                key = ('opaque-len', v.tag if isinstance(v.tag, (str, int, tuple)) else id(v), id(v))
+                n = st.env.get(key)
+                if n is None:
+                    n = z3.BitVec(fresh_name('opaque_seq_len'), 64)
+                    st.env[key] = n
+                return Int(n, 64, False)
             for o in (a, v):
                 # unsized reference to a fixed-size array (e.g. a promoted `&[T; N]`): the metadata is N
                 am = re.match(r'^&?(?:mut )?\[.*; (\d+)\]$', getattr(o, 'ty', '') or '') if isinstance(o, Opaque) else None
